@@ -128,6 +128,11 @@ func (c *c05Ctx) fileLevel(dir string) {
 			if passThrough && b.name != "mem" && b.name != "odsq4" {
 				continue
 			}
+			// the store's wrapper stack over the plain ODS file / the ODS file without parity file is what
+			// Store.GetByHeight returns after pruning (store:q4-pruned, store:ods-only): not repeated here
+			if l.name == "store-wrap" && (b.name == "ods" || b.name == "odsq4-noq4") {
+				continue
+			}
 			if c.rev && (stateless || passThrough) {
 				continue
 			}
